@@ -1,8 +1,8 @@
 """C12 — a handle loads its resource at most once between clears.
 
-Shape H(L): handles stored in a resource tree (h0 at 'k', h1 at 'a/k'), a static snapshot taken up-front,
-then L symbolic operations: an access through one of the access paths, `h.clear()`, or (handles that load a
-`desper.World`) `SimpleLoop.switch(h, clear_current=, clear_next=)`.
+Shape H(L): handles stored in a resource tree (h0 under the private-style name '_k', h1 at 'a/k'), a static
+snapshot taken up-front, then L symbolic operations: an access through one of the access paths, `h.clear()`, or
+(handles that load a `desper.World`) `SimpleLoop.switch(h, clear_current=, clear_next=)`.
 
 The handles log their own `load()` and `clear()` invocations (subclass overrides that defer to the base class),
 so the oracle is the statement read over that event log: never two loads without a clear in between; every
@@ -133,8 +133,8 @@ def h_access(sp, L=3, n_handles=2, kinds=KINDS, faults=0, retake=False):
     m = ResourceMap()
     hs = []
     if n_handles >= 2:
-        h0 = LogHandle('h0@k', kind, fail_at)
-        m['k'] = h0
+        h0 = LogHandle('h0@_k', kind, fail_at)
+        m['_k'] = h0
         hs.append(h0)
     h1 = LogHandle('h1@a/k', kind, fail_at)
     m['a/k'] = h1
@@ -154,11 +154,11 @@ def h_access(sp, L=3, n_handles=2, kinds=KINDS, faults=0, retake=False):
                     ("static.get('a').get('k')()", lambda: st.get('a').get('k')()),
                     ('m.get_static_map().a.k', lambda: m.get_static_map().a.k)]
         return [('h()', lambda: h()),
-                ("m['k']", lambda: m['k']),
-                ('static.k', lambda: st.k),
-                ("static['k']", lambda: st['k']),
-                ("static.get('k')()", lambda: st.get('k')()),
-                ('m.get_static_map().k', lambda: m.get_static_map().k)]
+                ("m['_k']", lambda: m['_k']),
+                ('static._k', lambda: st._k),
+                ("static['_k']", lambda: st['_k']),
+                ("static.get('_k')()", lambda: st.get('_k')()),
+                ('m.get_static_map()._k', lambda: m.get_static_map()._k)]
 
     for step in range(L):
         when = 'step %d' % step
@@ -322,7 +322,7 @@ RULE = ('one evaluation = one feasible path of the decision tree (distinct histo
         'through a static map, a clear of a cached handle or a loop switch')
 BOUNDS = {
     'quick': 'value kinds None,0,\'\',[],object with raising __eq__/__bool__/__len__,7,World; 2 handles '
-             '(k and a/k); 6-7 access paths per handle + clear (+4 switch variants for World); all histories of 3 ops; '
+             '(_k and a/k); 6-7 access paths per handle + clear (+4 switch variants for World); all histories of 3 ops; '
              'kept snapshot re-taken at any point: 1 handle, kinds None,[], 4 ops; load faults (load attempt 1 or 2 raises once): 1 handle, kind [] with 4 ops, kind World with 3 ops',
     'thorough': 'same kinds; 1 handle (a/k): all histories of 5 ops incl. re-taking the kept snapshot; 2 handles: all '
                 'histories of 4 ops (kind [] also with re-take); load faults: '
